@@ -42,6 +42,14 @@ def wmOf (w : WmStrategy) (m : Nat) : Nat :=
   | .bounded d => m - d
   | .monotonic => m
   | .custom => 0
+  | .periodic _ => 0     -- no closed form: depends on the clock (see `wmClause`)
+
+/-- what the watermark after an on-time event must be: the closed form of the strategy; for
+`Periodic` (clock-driven) either unchanged or the largest timestamp seen -/
+def wmClause (w : WmStrategy) (m wmOld wmNew : Nat) : Bool :=
+  match w with
+  | .periodic _ => wmNew == wmOld || wmNew == m
+  | _ => wmNew == wmOf w m
 
 /-- strictly increasing -/
 def strictInc : List Nat → Bool
@@ -63,7 +71,7 @@ def stepOk (w : WmStrategy) (l : LateStrategy) (seen : List Nat) (o : Obs) (e : 
   -- a late event never moves the watermark
   && (if e.ts < o.wm then o'.wm == o.wm else true)
   -- bounded out-of-orderness: after an on-time event wm = max seen − delay (not below zero)
-  && (if e.ts < o.wm then true else o'.wm == wmOf w (maxList seen))
+  && (if e.ts < o.wm then true else wmClause w (maxList seen) o.wm o'.wm)
   -- history: strictly increasing, extends the old one, ends at the current watermark
   && strictInc o'.history
   && (if o'.wm == o.wm then o'.history == o.history else o'.history == o.history ++ [o'.wm])
